@@ -373,26 +373,33 @@ func stepDet(h, no, np int) {
 	e.ctx = verif_ForkContext(base).WithEventManager(sdk.NewEventManager())
 	err1 := exec(e.ctx)
 	post1, ev1, log1 := e.snapshot(), e.ctx.EventManager().Events(), e.bank.log
-	e.bank.restore(bank0)
-	e.ctx = verif_ForkContext(base).WithEventManager(sdk.NewEventManager())
-	err2 := exec(e.ctx)
-	post2, ev2, log2 := e.snapshot(), e.ctx.EventManager().Events(), e.bank.log
+	// natively Go's map order cannot be forced: repeat the second execution to meet several orders
+	tries := 1
+	if !verif_Symbolic() {
+		tries = 32
+	}
+	for t := 0; t < tries; t++ {
+		e.bank.restore(bank0)
+		e.ctx = verif_ForkContext(base).WithEventManager(sdk.NewEventManager())
+		err2 := exec(e.ctx)
+		post2, ev2, log2 := e.snapshot(), e.ctx.EventManager().Events(), e.bank.log
+		verif_Assert((err1 == nil) == (err2 == nil), "C07 repeated execution gives the same result")
+		verif_Assert(sameState(post1, post2), "C07 repeated execution gives the same state")
+		verif_Assert(len(ev1) == len(ev2), "C07 repeated execution emits the same events")
+		if len(ev1) == len(ev2) {
+			for i := range ev1 {
+				verif_Assert(sameEvent(ev1[i], ev2[i]), "C07 repeated execution emits the same events")
+			}
+		}
+		verif_Assert(len(log1) == len(log2), "C07 repeated execution makes the same transfers")
+		if len(log1) == len(log2) {
+			for i := range log1 {
+				verif_Assert(verif_And(log1[i].toModule == log2[i].toModule, log1[i].addr == log2[i].addr, log1[i].amt.Equal(log2[i].amt)), "C07 repeated execution makes the same transfers")
+			}
+		}
+	}
 	verif_MapOrderChoice(false)
-	verif_Assert((err1 == nil) == (err2 == nil), "C07 repeated execution gives the same result")
 	verif_Reach("executed-twice")
-	verif_Assert(sameState(post1, post2), "C07 repeated execution gives the same state")
-	verif_Assert(len(ev1) == len(ev2), "C07 repeated execution emits the same events")
-	if len(ev1) == len(ev2) {
-		for i := range ev1 {
-			verif_Assert(sameEvent(ev1[i], ev2[i]), "C07 repeated execution emits the same events")
-		}
-	}
-	verif_Assert(len(log1) == len(log2), "C07 repeated execution makes the same transfers")
-	if len(log1) == len(log2) {
-		for i := range log1 {
-			verif_Assert(verif_And(log1[i].toModule == log2[i].toModule, log1[i].addr == log2[i].addr, log1[i].amt.Equal(log2[i].amt)), "C07 repeated execution makes the same transfers")
-		}
-	}
 }
 
 // C07, independence from the process: the same message on the same chain state gives the same
